@@ -309,8 +309,8 @@ theorem enum_values_wf (hm : cfg.mapsOk = true) (i : Nat) :
     · exact ((sortBy_perm _ (cfg.get i).values).map (·.1)).nodup_iff.mpr (keysOk_get cfg hm i).2.2.2
     · intro v hv
       obtain ⟨p, hp, rfl⟩ := List.mem_map.mp hv
-      have hce := hc.2
-      unfold ctorErr ctorErrT at hce
+      have hce := ctorErrT_none_of_ctorErr cfg hc.2
+      unfold ctorErrT at hce
       split at hce
       · cases hce
       · have hk : (cfg.get i).kind = .enum := by simpa [kindOf] using hc.1
